@@ -25,8 +25,8 @@ import (
 	"verifharness/tlc"
 )
 
-const SpecDir = "/verif/specs/fp"
-const TaskBin = "/verif/.work/bin/task"
+var SpecDir = rep.Root + "/specs/fp"
+var TaskBin = rep.Root + "/.work/bin/task"
 
 type Cfg struct {
 	Method  string `json:"method"`
